@@ -1,1 +1,286 @@
-PROPERTY='C04'
+"""C04 -- atomic_save never exposes a partially written destination, at any crash point.
+
+Engine: simfs.  For every workload the fault-free run is recorded, then the workload
+is re-executed once per crash point (before every seam event, and after the last);
+each crash snapshot is judged under process death (kernel view) and under power loss
+(every metadata-journal prefix x three adversarial resolutions of un-synced data).
+"""
+import random
+
+from simkit import core, shrinkers
+from engines import simfs
+from . import savelib as S
+
+PROPERTY = 'C04'
+ENGINE = 'simfs'
+LEVEL = 'fault_enumeration'
+SOURCE_FILES = ['boltons/fileutils.py']
+SIM_TIME_UNIT = 'seam events (file-system calls and write/flush/close on the part file)'
+TIERS = {
+    'quick': {'budget_s': 20, 'min_runs': 3000, 'block': 100, 'fixed_block': 10},
+    'thorough': {'budget_s': 600, 'min_runs': 300000, 'block': 500, 'fixed_block': 10},
+}
+RULE = ('One evaluation = one workload (text/binary, overwrite, part_file, buffering, buffer size, umask, '
+        'relative/absolute destination, destination absent/present, body = script of write/flush calls) with '
+        'ALL of its crash points enumerated: the crash is taken immediately before every seam event and after '
+        'the last one (coverage.crash_runs counts these executions; coverage.power_loss_images the disk images '
+        'judged). 80 fixed workloads on every invocation, the rest drawn from the run PRNG. Non-trivial = a '
+        '(workload, crash index) pair whose snapshot had the part file holding a strict non-empty prefix of the '
+        'new content in the kernel, or bytes only in the user-space buffer, or the publishing rename/link already '
+        'issued; distinct = distinct hashes of such pairs.')
+COMPONENTS = {'real': ['boltons.fileutils.AtomicSaver / atomic_save / atomic_rename / replace / set_cloexec',
+                       'CPython io.BufferedRandom and io.TextIOWrapper (the part file object)'],
+              'stub': ['os module (engines.simfs.SimOS)', 'fcntl module', 'the raw file (SimRaw)',
+                       'the disk: volatile inode data, un-synced write list, metadata journal']}
+ASSUMPTIONS = ['POSIX semantics of rename (atomic replace), link (EEXIST), open(O_CREAT|O_EXCL) as implemented by simfs',
+               'power-loss model: metadata becomes durable in issue order (any journal prefix at or after the last fsync); file data is durable up to the last fsync of that file, later writes may reach the disk in any subset, whole or torn',
+               'durability of the rename itself after a normal exit is not required (C04 does not ask for a directory fsync)',
+               'the part file is UTF-8 in text mode; nothing is required of the part file after a crash']
+
+
+def setup(root):
+    S.setup(root)
+
+
+def gen_case(rng, tier):
+    case = S.gen_workload(rng, faults=False)
+    case['power_seed'] = rng.getrandbits(32)
+    return case
+
+
+_FIXED = None
+
+
+def fixed_cases(tier):
+    global _FIXED
+    if _FIXED is None:
+        cases = []
+        for text in (False, True):
+            for present in (False, True):
+                for overwrite in (True, False):
+                    for blk in (8, 8192):
+                        bodies = [
+                            [],
+                            [['write', 'ab' if text else b'ab'.hex()]],
+                            [['write', 'a' if text else b'a'.hex()], ['write', 'é\n' if text else b'bc'.hex()],
+                             ['flush'], ['write', 'xyz' if text else b'xyz'.hex()]],
+                            [['write', ('0123456789' * 3) if text else (b'0123456789' * 3).hex()]],
+                            [['write', 'abcdefgh' if text else b'abcdefgh'.hex()], ['write', 'i' if text else b'i'.hex()]],
+                        ]
+                        for body in bodies:
+                            cases.append({'text_mode': text, 'overwrite': overwrite, 'part_file': None,
+                                          'buffering': -1, 'blksize': blk, 'umask': 0o022, 'dest_rel': False,
+                                          'dest_initial': {'data': b'OLD CONTENT'.hex(), 'mode': 0o644} if present else None,
+                                          'body': body, 'power_seed': 1})
+        _FIXED = cases
+    return _FIXED
+
+
+def case_size(case):
+    return len(case['body']) + sum(len(s[1]) for s in case['body'] if s[0] == 'write') + \
+        (len(case.get('crash_points') or []) or 30)
+
+
+def describe_case(case):
+    return case
+
+
+def _allowed(content, old, new):
+    if content is None:
+        return old is None
+    return content == new or (old is not None and content == old)
+
+
+def _fmt(b):
+    return 'absent' if b is None else repr(b[:60])
+
+
+def run_case(case):
+    out = core.Outcome()
+    log = core.EventLog(keep=False)
+    dest_arg, dest, part = S.paths(case)
+    old = bytes.fromhex(case['dest_initial']['data']) if case.get('dest_initial') else None
+    new = S.new_content(case)
+    refused = (old is not None and not case.get('overwrite', True))
+
+    base = S.run_save(case, simfs.Plan(), log)
+    N = base.sim.n
+    out.steps = N
+    # ---- fault-free run: A4, A2, A3 ------------------------------------------------------
+    if base.exc is not None and not (refused and isinstance(base.exc, OSError)):
+        out.fail('unexpected-exception', N, 'fault-free save raised %r' % (base.exc,), phase='fault-free')
+    elif refused:
+        if base.exc is None:
+            out.fail('overwrite-refusal-missing', N, 'overwrite=False with an existing destination did not raise')
+        elif base.fs.read_path(dest) != old or base.fs.lookup(part) is not None:
+            out.fail('normal-exit-wrong-dest', N, 'refused save changed the destination or left a part file')
+    else:
+        got = base.fs.read_path(dest)
+        if got != new:
+            out.fail('normal-exit-wrong-dest', N, 'after a normal exit the destination holds %s, expected %s'
+                     % (_fmt(got), _fmt(new)), phase='fault-free')
+        elif base.fs.lookup(part) is not None:
+            out.fail('normal-exit-part-left', N, 'after a normal exit the part file still exists', phase='fault-free')
+    if out.violation is None:
+        _check_order(base, dest, new, out, N)
+    if out.violation is None and not refused and base.sim.binding_changes.get(dest, 0) != 1:
+        out.fail('dest-binding-not-one-step', N, 'the destination name was (re)bound by %d seam calls, expected exactly 1'
+                 % base.sim.binding_changes.get(dest, 0))
+
+    # ---- crash enumeration ------------------------------------------------------------------
+    points = case.get('crash_points')
+    if points is None:
+        points = list(range(N + 1))
+    crash_runs = images = 0
+    if out.violation is None:
+        for k in points:
+            r = S.run_save(case, simfs.Plan(crash_at=k), log)
+            crash_runs += 1
+            out.steps += r.sim.n
+            if not r.crashed:
+                if k != r.sim.n or r.exc is not None and not refused:
+                    continue    # k beyond the end of this execution
+                # the crash right after the last event: judge the final state as a snapshot too
+                snap = r.fs.snapshot()
+                kind, detail = 'end', None
+            else:
+                snap = r.sim.crashed
+                kind, detail = r.sim.trace[k]
+            out.fault('crash')
+            log.add('snap', k, sorted(snap.dir.items()), snap.durable_meta, len(snap.journal))
+            # (P) process death
+            pv = snap.process_view(dest)
+            if not _allowed(pv, old, new):
+                out.fail('partial-dest-after-process-death', k,
+                         'process dies before event %d (%s %r): destination reads %s; old %s, new %s'
+                         % (k, kind, detail, _fmt(pv), _fmt(old), _fmt(new)), view='process-death')
+                break
+            # A2 also on the prefix executed so far
+            if _check_order(r, dest, new, out, k):
+                break
+            # (S) power loss
+            rng = random.Random(core.mix(case.get('power_seed', 0), k))
+            bad = None
+            for j in snap.meta_prefixes():
+                d = snap.dir_after_prefix(j)
+                ino = d.get(dest)
+                if ino is None:
+                    images += 1
+                    if old is not None:
+                        bad = (j, 'dir', None)
+                        break
+                    continue
+                for label, content in snap.data_choices(ino, rng):
+                    images += 1
+                    if not _allowed(content, old, new):
+                        bad = (j, label, content)
+                        break
+                if bad:
+                    break
+            if bad:
+                out.fail('partial-dest-after-power-loss', k,
+                         'power fails before event %d (%s %r); %d of %d journal records durable, un-synced data: %s; '
+                         'destination reads %s; old %s, new %s'
+                         % (k, kind, detail, bad[0], len(snap.journal), bad[1], _fmt(bad[2]), _fmt(old), _fmt(new)),
+                         view='power-loss')
+                break
+            # probes / non-trivial classification
+            pino = snap.dir.get(part)
+            nontriv = False
+            if pino is not None:
+                pdata, psynced, ppending = snap.inodes[pino]
+                if 0 < len(pdata) < len(new) and new.startswith(pdata):
+                    nontriv = True
+                    out.probe('crash_with_strict_prefix_in_part_file')
+                if len(pdata) < len(new) and r.entered:
+                    out.probe('crash_with_bytes_only_in_user_buffer')
+                    nontriv = True
+                if ppending and psynced != pdata:
+                    out.probe('power_loss_drops_unsynced_tail')
+            if r.sim.publish:
+                nontriv = True
+                if snap.dir.get(part) is not None and snap.dir.get(dest) == snap.dir.get(part):
+                    out.probe('crash_between_link_and_unlink')
+                else:
+                    out.probe('crash_after_publish')
+            if nontriv:
+                out.nontrivial.append(core.h64([_wl_key(case), k]))
+    writes = [d for kd, d in base.sim.trace if kd == 'raw.write']
+    flushes = 0
+    cnt = 0
+    for kd, d in base.sim.trace:
+        if kd == 'fo.flush':
+            cnt = 0
+        elif kd == 'raw.write':
+            cnt += 1
+            if cnt == 2:
+                flushes += 1
+    if flushes:
+        out.probe('flush_needed_multiple_raw_writes', flushes)
+    out.extra['crash_runs'] = crash_runs
+    out.extra['power_loss_images'] = images
+    out.extra['workloads'] = 1
+    out.sim_time = float(out.steps)
+    out.digest = log.digest()
+    return out
+
+
+def _wl_key(case):
+    return {k: v for k, v in case.items() if k not in ('crash_points', 'power_seed')}
+
+
+def _check_order(r, dest, new, out, step):
+    """A2: at the instant a name is bound to the part file's inode its kernel-visible data is
+    the complete new content, fully synced, and nothing is written to it afterwards."""
+    for ev, path, ino, data, unsynced, kind in r.sim.publish:
+        if path != dest:
+            continue
+        if data != new:
+            return out.fail('published-before-complete', step,
+                            '%s at event %d made the destination visible while the file held %s of %s'
+                            % (kind, ev, _fmt(data), _fmt(new)), view='order')
+        if unsynced:
+            return out.fail('published-before-synced', step,
+                            '%s at event %d made the destination visible before its data was fsynced'
+                            % (kind, ev), view='order')
+    if r.sim.writes_after_publish:
+        return out.fail('write-after-publish', step, 'the file was written to after it became the destination', view='order')
+    return None
+
+
+def shrink(case, fails):
+    c = dict(case)
+    o = run_case(c)
+    if o.violation is not None and isinstance(o.violation['step'], int) and 'crash_points' not in c:
+        c2 = dict(c)
+        c2['crash_points'] = [o.violation['step']]
+        if fails(c2):
+            c = c2
+    c = shrinkers.shrink_list_field(c, 'body', fails)
+    for simple in ({'part_file': None}, {'dest_rel': False}, {'umask': 0o022}, {'buffering': -1},
+                   {'blksize': 8192}, {'blksize': 8}, {'text_mode': False}):
+        if simple == {'text_mode': False} and c.get('text_mode'):
+            continue       # body encoding differs; keep
+        c = shrinkers.try_set(c, simple, fails)
+    # shorten written chunks
+    for i, st in enumerate(c['body']):
+        if st[0] == 'write' and len(st[1]) > 2:
+            for keep in (1, 2, 4, 8):
+                unit = keep if c.get('text_mode') else keep * 2
+                if unit < len(st[1]):
+                    c2 = dict(c)
+                    c2['body'] = list(c['body'])
+                    c2['body'][i] = ['write', st[1][:unit]]
+                    if 'crash_points' in c2:
+                        c2.pop('crash_points')
+                    if fails(c2):
+                        c = c2
+                        break
+    if 'crash_points' not in c:
+        o = run_case(c)
+        if o.violation is not None:
+            c2 = dict(c)
+            c2['crash_points'] = [o.violation['step']]
+            if fails(c2):
+                c = c2
+    return c
